@@ -129,3 +129,6 @@ pub fn sigq_usage() -> Option<(u64, u64)> {
     let mut it = l[5..].trim().split('/');
     Some((it.next()?.parse().ok()?, it.next()?.parse().ok()?))
 }
+
+/// si_code of a signal sent with sigqueue / pthread_sigqueue.
+pub const SI_QUEUE: c_int = -1;
